@@ -2,9 +2,12 @@ package main
 
 import (
 	"context"
+	"encoding/json"
 	"os"
 	"path/filepath"
 	"testing"
+
+	"github.com/Comcast/sheens/match"
 )
 
 // Witness for cmd/mcrew.(*Service).AddMachine#post:rollback and
@@ -70,5 +73,31 @@ func TestWitnessProcessWriteFailureLeavesMemory(t *testing.T) {
 	}
 	if after := s.crew.Machines["m0"].State; after != before {
 		t.Fatalf("Process failed to persist the new state of m0 but replaced the in-memory state (%s -> %s)", before.NodeName, after.NodeName)
+	}
+}
+
+// Witness for cmd/mcrew.MachineState#jsonform:* (C09): a stored record with
+// empty values keeps its node and bs keys, and the bindings come back non-nil.
+func TestWitnessMachineStateJSONEmptyValues(t *testing.T) {
+	ms := &MachineState{NodeName: "", Bs: match.NewBindings()}
+	js, err := json.Marshal(ms)
+	if err != nil {
+		t.Fatal(err)
+	}
+	var keys map[string]json.RawMessage
+	if err := json.Unmarshal(js, &keys); err != nil {
+		t.Fatal(err)
+	}
+	for _, k := range []string{"node", "bs"} {
+		if _, have := keys[k]; !have {
+			t.Errorf("key %q is not written for an empty value: %s", k, js)
+		}
+	}
+	var back MachineState
+	if err := json.Unmarshal(js, &back); err != nil {
+		t.Fatal(err)
+	}
+	if back.Bs == nil {
+		t.Errorf("empty bindings come back as nil bindings: %s", js)
 	}
 }
